@@ -126,6 +126,16 @@ func (g *aspGen) listExpr(t AspType, d int) ex {
 		return e
 	}
 	et := *t.E
+	if et.K == AspList && et.E.K == AspInt && g.chance(30, "pairs") {
+		// enumerate / zip produce lists of pairs
+		l := g.derange(g.listExpr(AspListOf(tInt), d-1))
+		if g.chance(50, "enum") || l.p != pAtom || l.post != 0 {
+			g.feat("enumerate")
+			return call("enumerate", arg(l))
+		}
+		g.feat("zip")
+		return call("zip", l.s, call([]string{"reversed", "sorted"}[g.n(0, 1, "zipw")], l.s).s)
+	}
 	switch k := g.n(0, 39, "listform"); {
 	case k < 6:
 		return g.literal(t, 2)
